@@ -38,5 +38,7 @@ theorem el_case_BatchMsg : Tea.Gen.fact_el_case_BatchMsg = Tea.Doc.fact_el_case_
 theorem order_standardRenderer_stop : Tea.Gen.fact_order_standardRenderer_stop = Tea.Doc.fact_order_standardRenderer_stop := rfl
 theorem order_standardRenderer_kill : Tea.Gen.fact_order_standardRenderer_kill = Tea.Doc.fact_order_standardRenderer_kill := rfl
 theorem body_standardRenderer_listen : Tea.Gen.fact_body_standardRenderer_listen = Tea.Doc.fact_body_standardRenderer_listen := rfl
+theorem body_standardRenderer_halt : Tea.Gen.fact_body_standardRenderer_halt = Tea.Doc.fact_body_standardRenderer_halt := rfl
+theorem body_standardRenderer_start : Tea.Gen.fact_body_standardRenderer_start = Tea.Doc.fact_body_standardRenderer_start := rfl
 
 end Tea.Props.Bridge.C04
